@@ -354,6 +354,9 @@ impl<'a, 'tcx> Cx<'a, 'tcx> {
 
 	fn block(&self, b: &hir::Block<'tcx>) -> J {
 		let mut v: Vec<(&'static str, J)> = vec![("k", s("Block"))];
+		if b.targeted_by_break {
+			v.push(("bid", J::Num(b.hir_id.local_id.as_u32() as i128)));
+		}
 		let mut stmts = Vec::new();
 		for st in b.stmts {
 			match &st.kind {
@@ -645,11 +648,19 @@ impl<'a, 'tcx> Cx<'a, 'tcx> {
 				v.push(("mut", J::Bool(m.is_mut())));
 				v.push(("e", self.expr(x)));
 			},
-			Break(_, x) => {
+			Break(dest, x) => {
 				v.push(("k", s("Break")));
 				v.push(("e", x.map(|x| self.expr(x)).unwrap_or(J::Null)));
+				if let Ok(t) = dest.target_id {
+					v.push(("target", J::Num(t.local_id.as_u32() as i128)));
+				}
 			},
-			Continue(_) => v.push(("k", s("Continue"))),
+			Continue(dest) => {
+				v.push(("k", s("Continue")));
+				if let Ok(t) = dest.target_id {
+					v.push(("target", J::Num(t.local_id.as_u32() as i128)));
+				}
+			},
 			Ret(x) => {
 				v.push(("k", s("Ret")));
 				v.push(("e", x.map(|x| self.expr(x)).unwrap_or(J::Null)));
